@@ -25,9 +25,10 @@ def _should_set_millisecond(cr, marking_type):
             return True
         else:
             return False
-    if getattr(cr, 'precision', None) == 'millisecond':
-        return True
-    return False
+    # A datetime with a sub-second part serializes with a "." and would be
+    # switched to millisecond precision when parsed back (see above), so do
+    # the same now; otherwise serializing is not stable across a round trip.
+    return bool(getattr(cr, 'microsecond', 0))
 
 
 class ExternalReference(_STIXBase20):
